@@ -1,4 +1,5 @@
 import Pds.Proofs.KernelTie.TdGuard
+import Pds.Proofs.KernelTie.TdGuardQ
 import Pds.Proofs.KernelTie.TdCore
 import Pds.Proofs.KernelTie.TdRead
 /-!
